@@ -58,7 +58,7 @@ def tlc_behaviours_cy(ctx, maxlen, plain):
     return r1['exports'].get('BEH', [])
 
 
-PAIR_CALLS = ['compile', 'update_var', 'derive']
+PAIR_CALLS = ['compile', 'update_var', 'update_edge', 'derive']
 
 
 def tlc_behaviours_pair(ctx, maxlen):
